@@ -107,7 +107,8 @@ class Run:
             p.__enter__()
         from pv.core import introspect as I
 
-        self.base_pairs = len(I.current_pairs() or [])
+        bp = I.current_pairs()
+        self.base_pairs = None if bp is I.UNKNOWN else len(bp or [])
         self.in_body = False
 
         def make_overlay(name):
@@ -121,6 +122,8 @@ class Run:
             pairs = I.current_pairs()
             if pairs is None:
                 return None
+            if pairs is I.UNKNOWN:
+                return "unknown"
             return tuple(handler_slot.get(id(acc), "base") for _, acc in pairs)
 
         def step_fn(op):
@@ -285,7 +288,7 @@ class System:
                         probs.append(f"[{name}] driver call g({value}): overlay {o} ({OVERLAYS[o]}) received {new[o]!r}, expected {want!r} <{tag}>")
                 if name == "inside drv" and new["PD"] != (value,):
                     probs.append(f"[{name}] driver call g({value}): 'drv > g > w' received {new['PD']!r}, expected exactly one event")
-            if name == "top-level":
+            if name == "top-level" and snap != "unknown" and run.base_pairs is not None:
                 want_snap = tuple(["base"] * run.base_pairs + list(entered))
                 if snap != want_snap:
                     probs.append(f"[{name}] handlers installed for the driver after {op!r}: {snap!r}, expected {want_snap!r} <installed>")
